@@ -156,6 +156,8 @@ EvOffsetMark ==
         /\ conf' = (conf /\ ok) /\ div' = Note(ok, <<"OffsetMark", t, r, s, E.usedT>>)
         /\ bad' = bad \cup Flag(P01At(used2, usage2, k), <<"C01", l, "slot overbooked", <<r, s>>>>)
                       \cup Flag(~Plain(t) \/ LeadInOk(t, r, s, E.usedT), <<"C08", l, "idle time reserved in front of the work", t>>)
+                      \* C10: time is marked as used on people only (a group has no time of its own to use up)
+                      \cup Flag(R(r).leaf /\ T(t).leaf, <<"C10", l, "slot time marked as used on a group or for a container", <<t, r>>>>)
   /\ UNCHANGED <<ts, lim, lsec, cur>>
 
 EvCredit ==
